@@ -320,9 +320,13 @@ func L2Features() []MethodCase {
 		m.HTTP.SkipResp = true
 		out = append(out, MethodCase{M: m, Own: true})
 	}
-	for _, kind := range []string{"server", "client", "bidi", "server-with-payload"} {
+	for _, kind := range []string{"server", "client", "bidi", "server-with-payload", "server-two-routes", "bidi-two-routes"} {
 		m := mk("streaming-" + kind)
 		m.HTTP.Verb = "GET"
+		if strings.HasSuffix(kind, "-two-routes") {
+			m.HTTP.Routes = []string{"GET /" + m.Name + "/alt"}
+			kind = strings.TrimSuffix(kind, "-two-routes")
+		}
 		switch kind {
 		case "server":
 			m.StreamResult = ObjT(nil, A("ev", P(KString)))
